@@ -595,52 +595,29 @@ let spec_check (know : int list) (s : sx) =
       (* value level, Map<K, Orswot>: op-based causal delivery without state transfer -- the member table under
          every key is the specification of the knowledge (theorems C05_mapor_values_refine / C01_mapor_converge of
          proofs/MapOrswot.v; T2 needs a merge, T3 leaves member tables alone: never attributed to a known finding) *)
-      (* Map<K, Orswot> whose keys are never removed, per-actor delivery, duplicates and MERGES: the complete state is
-         [mapor_spec_nk] of the knowledge (theorems C01_mapor_nk_refine, C03_mapor_nk_merge_spec, C08_mapor_nk_per_actor,
-         C20_mapor_nk_state_eq, C05_mapor_nk_ok; proofs/MapOrswotNK.v); theorem-backed, never attributed to a known finding *)
-      if !ty = "mapor" && !all_per_actor
-         && not (List.exists (fun (_, o, _) -> Known.is_rm o) !hist) then begin
-        let okv = mapor_nk_ok (history_of (mop_sx or_inst)) k (cmap_sx or_inst s) in
-        stat ("mapnk_" ^ (if okv then "ok" else "bad") ^ (if !merges_seen then "_merge" else ""));
-        let saved = !classes in
-        classes := [];
-        expect_all (["C05"; "C20"] @ (if !merges_seen then ["C03"] else if !all_causal then ["C01"] else ["C08"]))
-          (fun () -> "Map<K,Orswot> without key removes: the complete state (map clock, keys, entry clocks, nested sets with witness clocks and parked removes) differs from the specification of the replica's knowledge") okv;
-        classes := saved
-      end;
-      (* Map<K, Orswot> WITH key removes and merges in the fragment the known findings leave: no update carries a nested
-         remove and every key named by a key remove is updated at most once by each actor (km_once).  The complete state is
-         [mapor_spec_km] of the knowledge (C01_mapor_km_refine, C03_mapor_km_merge_spec, C08_mapor_km_any_discipline,
-         C20_mapor_km_state_eq, C05_mapor_km_ok; proofs/MapOrswotKM.v); theorem-backed, never attributed to a known finding *)
+      (* Map<K, Orswot>, EVERY history outside the static classes of T2 (a key named by a key remove with two updates of one
+         actor) and T3 (a key named by a key remove with an update carrying a nested remove): the complete state is
+         [mapor_spec_kmn] of the knowledge under per-actor delivery, duplicates and merges (C01_mapor_kmn_refine,
+         C03_mapor_kmn_merge_spec, C08_mapor_kmn_any_discipline, C20_mapor_kmn_state_eq, C05_mapor_kmn_ok;
+         proofs/MapOrswotKMN.v, which subsumes MapOrswotNK.v and MapOrswotKM.v); theorem-backed, never attributed to a known finding *)
       if !ty = "mapor" && !all_per_actor then begin
         let ops = List.rev_map (fun (_, o, _) -> o) !hist in
-        let rmk = List.concat_map (Known.rm_keys 0) ops and ups = List.concat_map (Known.updates 0) ops in
+        let rmk = List.sort_uniq compare (List.concat_map (Known.rm_keys 0) ops) and ups = List.concat_map (Known.updates 0) ops in
         let once = List.for_all (fun (lv, kk) ->
           let actors = List.filter_map (fun (l, k', a, _) -> if l = lv && k' = kk then Some a else None) ups in
           List.length actors = List.length (List.sort_uniq compare actors)) rmk in
-        let addonly = not (List.exists (fun (_, _, _, op) -> Known.contains_remove op) ups) in
-        if once && addonly && rmk <> [] then begin
-          let okv = mapor_km_ok (history_of (mop_sx or_inst)) k (cmap_sx or_inst s) in
-          stat ("mapkm_" ^ (if okv then "ok" else "bad") ^ (if !merges_seen then "_merge" else ""));
+        let addonly = List.for_all (fun (lv, kk) ->
+          not (List.exists (fun (l, k', _, op) -> l = lv && k' = kk && Known.contains_remove op) ups)) rmk in
+        if once && addonly then begin
+          let okv = mapor_kmn_ok (history_of (mop_sx or_inst)) k (cmap_sx or_inst s) in
+          stat ("mapkmn_" ^ (if okv then "ok" else "bad") ^ (if rmk = [] then "_nokrm" else "") ^ (if !merges_seen then "_merge" else ""));
           let saved = !classes in
           classes := [];
           expect_all (["C05"; "C20"] @ (if !merges_seen then ["C03"] else if !all_causal then ["C01"] else ["C08"]))
-            (fun () -> "Map<K,Orswot> with key removes (every removed key updated at most once per actor, no nested remove): the complete state differs from the specification of the replica's knowledge") okv;
+            (fun () -> "Map<K,Orswot>, history outside the classes of T2 and T3: the complete state (map clock, keys, entry clocks, nested sets with witness clocks and parked removes, pending key removes) differs from the specification of the replica's knowledge") okv;
           classes := saved;
-          emit_spec_case (fun () -> "Bool.eqb (mapor_km_ok " ^ coq_hist "(mop oop)" (coq_mop coq_oop) (mop_sx or_inst) ^ " " ^ coq_know know ^ " (" ^ coq_cmap coq_orswot (cmap_sx or_inst s) ^ " : cmap orswot)) " ^ string_of_bool okv)
+          emit_spec_case (fun () -> "Bool.eqb (mapor_kmn_ok " ^ coq_hist "(mop oop)" (coq_mop coq_oop) (mop_sx or_inst) ^ " " ^ coq_know know ^ " (" ^ coq_cmap coq_orswot (cmap_sx or_inst s) ^ " : cmap orswot)) " ^ string_of_bool okv)
         end
-      end;
-      (* value level at depth 2, Map<K1, Map<K2, Orswot>>, causal op-based delivery: theorems
-         C05_map2_values_refine / C05_map2_valspec_ok / C01_map2_converge (proofs/MapMapOrswot.v);
-         theorem-backed, never attributed to a known finding *)
-      if !ty = "mapmo" && not !merges_seen && !all_causal then begin
-        let i = map_inst or_inst in
-        let okv = m2valspec_ok (history_of (mop_sx i)) k (cmap_sx i s) in
-        stat ("mapval2_" ^ (if okv then "ok" else "bad"));
-        let saved = !classes in
-        classes := [];
-        expect_all ["C01"; "C05"] (fun () -> "Map<K1,Map<K2,Orswot>>: the inner key table under some outer key, or the member table under some (outer, inner) key, differs from the depth-2 value-level specification of the replica's knowledge (an inner key / a member is present iff one of its applied witnesses is covered by no applied outer key remove, inner key remove or nested member remove naming it)") okv;
-        classes := saved
       end;
       (* value level, Map<K, Orswot>, per-actor (overtaking) op-based delivery, no update carrying a nested remove:
          theorems C08_mapor_values_per_actor / C05_mapor_values_refine_per_actor (proofs/MapOrswotPA.v);
